@@ -17,7 +17,7 @@ def case_of(params, model):
 def main(tier, seed):
     chk = Check("C06", tier, seed, technique="relational DSE: uninterrupted / stopped / restarted runs of the real main.py in one path context with functional kernel stubs; equality of terms decided by z3; scenario replay on the real API")
     jobs = [(T, dict(K=2, k=1, ls_mode="lean")), (T, dict(K=3, k=2, ls_mode="unit")), (T, dict(K=3, k=1, ls_mode="unit", maxcor=1)),
-            (T, dict(K=3, k=2, ls_mode="unit", maxcor=2, maxcor_restart=1))]
+            (T, dict(K=3, k=2, ls_mode="unit", maxcor=2, maxcor_restart=1)), (T, dict(K=3, k=2, ls_mode="unit", maxcor=3))]
     if tier != "quick":
         jobs += [(T, dict(K=3, k=1, k2=2, ls_mode="unit")), (T, dict(K=3, k=2, ls_mode="lean")), (T, dict(K=4, k=2, ls_mode="unit", maxcor=3)),
                  (T, dict(K=4, k=3, ls_mode="unit", maxcor=3, maxcor_restart=1)),
